@@ -99,6 +99,9 @@ pub struct CliCase {
     /// use the documented short options -p / -d / -s
     #[serde(default)]
     pub short_opts: bool,
+    /// the output file(s) already exist with other, longer content (a re-run into the same path)
+    #[serde(default)]
+    pub preexisting: bool,
 }
 
 fn mutk_by_name(n: &str) -> Option<MutK> {
@@ -204,7 +207,7 @@ impl CliCase {
     }
 
     pub fn brief(&self) -> String {
-        format!("{:?} {:?} {}", self.via, self.mode, self.common_args().join(" "))
+        format!("{:?} {:?} {}{}", self.via, self.mode, self.common_args().join(" "), if self.preexisting { " [output path(s) already exist]" } else { "" })
     }
 
     pub fn nondefault_options(&self) -> usize {
@@ -236,6 +239,21 @@ pub fn invoke(ctx: &Ctx, cli: &str, c: &CliCase, dir: &str) -> Result<RunOut, St
     std::fs::create_dir_all(dir).map_err(|e| e.to_string())?;
     let outdir = format!("{}/out", dir);
     let outfile = format!("{}/one.pkl", dir);
+    if c.preexisting {
+        // a previous, larger result at the same path(s): it must be replaced, not partly overwritten
+        let junk = vec![b'X'; 96 * 1024];
+        match &c.mode {
+            Mode::Single => std::fs::write(&outfile, &junk).map_err(|e| e.to_string())?,
+            Mode::Batch { samples, fault_at } => {
+                std::fs::create_dir_all(&outdir).map_err(|e| e.to_string())?;
+                for i in 0..*samples {
+                    if Some(i) != *fault_at {
+                        std::fs::write(format!("{}/{}.pkl", outdir, i), &junk).map_err(|e| e.to_string())?;
+                    }
+                }
+            }
+        }
+    }
     if let Mode::Batch { fault_at: Some(k), .. } = &c.mode {
         // injected fault: a directory where sample k must be written
         std::fs::create_dir_all(format!("{}/{}.pkl", outdir, k)).map_err(|e| e.to_string())?;
@@ -486,9 +504,9 @@ pub fn cli_strategy(wrapper: bool) -> BoxedStrategy<CliCase> {
     };
     (
         (proptest::option::weighted(0.6, 0u8..6), proptest::option::weighted(0.9, any::<u64>()), range, names),
-        (rate, any::<bool>(), any::<bool>(), any::<bool>(), mode, proptest::sample::select(vec![1u8, 2, 5, 16]), via, proptest::bool::weighted(0.3)),
+        (rate, any::<bool>(), any::<bool>(), any::<bool>(), mode, proptest::sample::select(vec![1u8, 2, 5, 16]), via, proptest::bool::weighted(0.3), proptest::bool::weighted(0.25)),
     )
-        .prop_map(|((protocol, seed, (min, max), mutators), (rate, u, e, b, mode, rayon_threads, via, short_opts))| CliCase {
+        .prop_map(|((protocol, seed, (min, max), mutators), (rate, u, e, b, mode, rayon_threads, via, short_opts, preexisting))| CliCase {
             protocol,
             seed,
             min,
@@ -502,6 +520,7 @@ pub fn cli_strategy(wrapper: bool) -> BoxedStrategy<CliCase> {
             rayon_threads,
             via,
             short_opts,
+            preexisting,
         })
         .boxed()
 }
